@@ -192,13 +192,20 @@ class ExprGen:
         self.vars.append((name, ["user", t]))
         try:
             body = self.bool_expr(d - 1)
-            if k == "exists" and r.random() < 0.3:
+            if k == "exists" and r.random() < 0.4:
                 # `exists v. (... and v == value)`: the shape the simplifier eliminates v from;
                 # the value may be of a supertype of v's type and may itself mention v
                 sup = [x for x in self.user_types() if subtype_of(self.tmap, t, x) and self.can_obj(x)]
                 try:
                     val = self.obj_expr(r.choice(sup), 1)
                     v = ["v", name, ["user", t]]
+                    # half of the time, if some object-valued fluent takes an argument of v's type,
+                    # make the value mention v itself: v == g(v)
+                    selfref = [f for f in self.fluents if f["type"][0] == "user" and len(f.get("params", [])) == 1
+                               and subtype_of(self.tmap, t, f["params"][0][1][1])
+                               and subtype_of(self.tmap, f["type"][1], t)]
+                    if selfref and r.random() < 0.7:
+                        val = ["f", r.choice(selfref)["name"], v]
                     eq = ["eq", v, val] if r.random() < 0.5 else ["eq", val, v]
                     body = ["and", body, eq] if r.random() < 0.7 else ["and", eq, body]
                 except (ValueError, IndexError):
